@@ -27,6 +27,16 @@ func c09Candidates(lvl int) []string {
 			gen.Seq(gen.Lit("1.0", "1.1", "1"), gen.Opt(gen.Lit("a1", "rc1", "b2")), gen.Opt(gen.Lit(".post1", ".post2")), gen.Opt(gen.Lit(".dev1", ".dev2")), local),
 		)
 	}
+	// every numeric slot at the magnitudes where packed keys / narrowed integers change behaviour
+	m := gen.Magnitudes
+	g = gen.Alt(g,
+		gen.Seq(gen.Lit("1.0", "1"), gen.Lit("a", "b", "rc"), m),
+		gen.Seq(gen.Lit("1.0", "1.0a1"), gen.Lit(".post", ".dev"), m),
+		gen.Seq(gen.Lit("1.0.post1.dev"), m),
+		gen.Seq(gen.Lit("1.", "1.0."), m),
+		gen.Seq(m, gen.Lit("!1.0", ".0")),
+		gen.Seq(gen.Lit("1.0+"), m),
+	)
 	return g
 }
 
